@@ -420,6 +420,20 @@ impl<'a> DeclVisitor for ExecSession<'a> {
                     };
                     let res = run(&rdr);
                     record_get(&mut out, &s.decl, s.shape, s.fmt, *api, *stream, &res, tainted, overwrite_hex.is_some(), i);
+                    // Deserialization is a function of the document: the same read again (same
+                    // store state, same read plan) must give the same result, whatever else
+                    // this or any other thread deserialized in between (no hidden state).
+                    if (i + s.ops.len()) % 3 == 0 {
+                        let again = run(&rdr);
+                        out.probe("probe.repeat_read_compared");
+                        if again.a != res.a {
+                            out.violations.push((
+                                i,
+                                "same_document_same_result".into(),
+                                format!("first read gave {:?}, an identical second read gave {:?}", res.a, again.a),
+                            ));
+                        }
+                    }
                     // Benign-fault invisibility: short reads and EINTR must not change the result.
                     let benign_only = overwrite_hex.is_none() && rplan.iter().all(|st| st.benign());
                     if benign_only && (!rplan.is_empty() || *tail > 0) {
@@ -946,6 +960,7 @@ fn sweep(cfg: &Config, which: u64, n: u64, keep_trace: bool, workers: usize) -> 
 
 fn run_check(cfg: &Config) -> i32 {
     let t0 = Instant::now();
+    let mut determinism_diverged = false;
     let (n_sessions, n_byz): (u64, u64) = if cfg.thorough() { (12_000_000, 4_000_000) } else { (1_000_000, 400_000) };
 
     // 1. single-fault enumeration, sharded by declaration (seed-independent)
@@ -974,11 +989,21 @@ fn run_check(cfg: &Config) -> i32 {
         let a = sweep(cfg, which, 1024, true, 3);
         let b = sweep(cfg, which, 1024, true, cfg.workers.max(2));
         if a.trace != b.trace {
-            report::harness_error("determinism probe failed: the same seeds produced different event logs");
+            determinism_diverged = true;
         }
     }
 
     let out = report::settle_violations(cfg, &stats, &minimise);
+    if determinism_diverged {
+        if out.new_violations == 0 {
+            // The simulator is deterministic on the unchanged tree (./check selfcheck); if the same
+            // seeds give different event logs at different worker counts, something in the run has
+            // state that outlives a run. Without a concrete violation this is reported as a harness
+            // error, never as a property violation.
+            report::harness_error("determinism probe failed: the same seeds produced different event logs at different worker counts");
+        }
+        println!("NOTE: the determinism probe also diverged (results depend on which runs shared a worker thread: hidden state that outlives a run)");
+    }
     let wall = t0.elapsed().as_secs_f64();
     let must_be_nonzero = [
         "probe.validation_error_seen_through_reader",
@@ -991,6 +1016,7 @@ fn run_check(cfg: &Config) -> i32 {
         "probe.read_saw_concurrent_overwrite",
         "probe.byzantine_visit_rejected",
         "probe.benign_invisibility_checked",
+        "probe.repeat_read_compared",
         "fault.format_error",
         "fault.torn_write",
         "fault.lost_unsynced_write",
